@@ -26,7 +26,8 @@ variable {E : Ext} {env : Env} (hwf : envWF env = true) (P : PTy → PyVal → P
   (hlist : ∀ fl item mn mx xs, Good E env (.list fl item mn mx) (.list xs) →
     (∀ x ∈ xs, Good E env item x ∧ P item x) → P (.list fl item mn mx) (.list xs))
   (hmap : ∀ fl kt vt kvs, Good E env (.map fl kt vt) (.dict kvs) →
-    (∀ kx ∈ kvs, (∃ s, kx.1 = .str s) ∧ Good E env vt kx.2 ∧ P vt kx.2) → P (.map fl kt vt) (.dict kvs))
+    (∀ kx ∈ kvs, (∃ s, kx.1 = .str s) ∧ Good E env kt kx.1 ∧ Good E env vt kx.2 ∧ P vt kx.2) →
+    P (.map fl kt vt) (.dict kvs))
   (hstruct : ∀ fl cls slots, Good E env (.struct fl cls) (.struct cls slots) →
     (∀ k x f, (k, x) ∈ slots → (publicFields env cls).find? (·.name == k) = some f → Good E env f.ty x ∧ P f.ty x) →
     P (.struct fl cls) (.struct cls slots))
@@ -147,7 +148,7 @@ theorem good_induct_dict (kt vt : PTy) (kvs : List (PyVal × PyVal))
     (hk : (match kt with | .str fl _ _ _ => !fl.nullable | _ => false) = true) (h0 : tyWF env vt = true)
     (h1 : validDict E env kt vt kvs = true) (h2 : normalDict env kt vt kvs = true)
     (h3 : valWFDict E env vt kvs = true) (h4 : ambDict env vt kvs = false) :
-    ∀ kx ∈ kvs, (∃ s, kx.1 = .str s) ∧ Good E env vt kx.2 ∧ P vt kx.2 := by
+    ∀ kx ∈ kvs, (∃ s, kx.1 = .str s) ∧ Good E env kt kx.1 ∧ Good E env vt kx.2 ∧ P vt kx.2 := by
   match kvs with
   | [] => intro x hx; cases hx
   | (k, y) :: ys =>
@@ -159,11 +160,15 @@ theorem good_induct_dict (kt vt : PTy) (kvs : List (PyVal × PyVal))
     rcases List.mem_cons.1 hx with e | hx
     · have g : Good E env vt y := ⟨h0, h1.1.2, h2.1.2, h3.1, h4.1⟩
       rw [e]
-      refine ⟨?_, g, good_induct vt y g⟩
       have hkv := h1.1.1
+      have hks : ∃ s, k = .str s := by
+        cases kt <;> simp at hk
+        cases k <;> simp [validB, validPrim, isNoneV, PTy.flags, hk] at hkv
+        exact ⟨_, rfl⟩
+      refine ⟨hks, ?_, g, good_induct vt y g⟩
+      obtain ⟨s, rfl⟩ := hks
       cases kt <;> simp at hk
-      cases k <;> simp [validB, validPrim, isNoneV, PTy.flags, hk] at hkv
-      exact ⟨_, rfl⟩
+      exact ⟨by simp [tyWF], hkv, by simp [normalB], by simp [valWF], by simp [ambiguousEmpty]⟩
     · exact good_induct_dict kt vt ys hk h0 h1.2 h2.2 h3.2 h4.2 x hx
 termination_by structural kvs
 theorem good_induct_slots (fields : List FieldDef) (slots : List (String × PyVal))
